@@ -206,6 +206,12 @@ func (c *EvalCtx) ident(name string) SV {
 			return constSV(cst.Val(), cst.Type())
 		}
 	}
+	if c.pkg != nil {
+		if f := c.x.funcByName(c.pkg.Path(), name); f != nil {
+			c.x.funcVals[f.String()] = f
+			return SV{t: mkInt(int64(funcID(f))), typ: f.Signature, fnName: f.String()}
+		}
+	}
 	sfail("unknown identifier %q", name)
 	return SV{}
 }
